@@ -439,6 +439,27 @@ func onlyViaEdge(fn *ssa.Function, from *ssa.BasicBlock, succ int, target func(s
 	return !reachCoreX(fn.Blocks[0], 0, target, nil, func(a, b *ssa.BasicBlock, idx int) bool { return a == from && b == to && idx == succ })
 }
 
+// edgeRef names a control-flow edge: successor number succ of block from.
+type edgeRef struct {
+	from *ssa.BasicBlock
+	succ int
+}
+
+// onlyViaEdges: every path from the entry of fn to target takes one of the given edges.
+func onlyViaEdges(fn *ssa.Function, edges []edgeRef, target func(ssa.Instruction) bool) bool {
+	if len(fn.Blocks) == 0 || len(edges) == 0 {
+		return false
+	}
+	return !reachCoreX(fn.Blocks[0], 0, target, nil, func(a, b *ssa.BasicBlock, idx int) bool {
+		for _, e := range edges {
+			if e.from == a && e.succ == idx {
+				return true
+			}
+		}
+		return false
+	})
+}
+
 // reachCore searches from instruction index `from` of block b.
 func reachCore(b *ssa.BasicBlock, from int, target, barrier func(ssa.Instruction) bool) bool {
 	return reachCoreX(b, from, target, barrier, nil)
